@@ -54,11 +54,11 @@ def run(ck):
                       "(what BackendWorker::_read_and_decode_frontend_queue does before an idle poll)",
                       "a producer reload eventually observes the latest published reader position"]
     queue_level(ck)
-    try:
-        import sys_c09
-        sys_c09.run(ck)
-    except ModuleNotFoundError:
-        pass
+    # end to end: real frontend + backend, producer parked in the interposed retry sleep
+    import sysfam
+    rule = ck.rule
+    sysfam.run_family(ck, "C09", 40 if ck.tier == "quick" else 800)
+    ck.rule = rule + "; end to end: " + sysfam.RULES["C09"]
 
 
 def replay(ck, path):
